@@ -107,6 +107,19 @@ Section Interp.
     | OForeign _ => "<foreign>"
     end.
 
+  (* the NAME of the class of an object: a foreign class may be called anything, in particular what a class of the
+     library is called (ast.Add, sympy.Add, a user's own Add): foreign object number k < 20 is an instance of a class
+     named like the k-th class of the library; comparing class names is therefore weaker than comparing classes *)
+  Definition library_class_names : list string :=
+    ["Constant"; "Variable"; "Add"; "Multiply"; "Minus"; "Divide"; "Power"; "Negation"; "Reciprocal"; "Sine"; "Cosine";
+     "NthPower"; "NthRoot"; "Exponential"; "Logarithm"; "Point"; "Partial"; "Derivative"; "Differential";
+     "LocatedDifferential"].
+  Definition oname (o : obj) : string :=
+    match o with
+    | OForeign k => nth k library_class_names "<foreign>"
+    | _ => ocls o
+    end.
+
   Definition qattr (w : qval) (f : string) : option qval :=
     match w with
     | QVObj (OExpr e) =>
@@ -268,8 +281,10 @@ Section Interp.
     | QOther => qlook "other" r
     | QName x => qlook x r
     | QAttr a f => match qev r a with Some w => qattr w f | None => None end
-    | QClassName a | QClassOf a =>
+    | QClassOf a =>
         match qev r a with Some (QVObj o) => Some (QVCls (ocls o)) | _ => None end
+    | QClassName a =>
+        match qev r a with Some (QVObj o) => Some (QVCls (oname o)) | _ => None end
     | QTag s => Some (QVTag s)
     | QBool b => Some (QVB b)
     | QEq a b =>
